@@ -335,3 +335,56 @@ CRASH_PROBES = [
     ("deep-inline", "root packet P {\n" + "".join("    " * (i + 1) + "G%d {\n" % i for i in range(40)) + "    " * 41 + "u8 a,\n" +
      "".join("    " * (40 - i) + "},\n" for i in range(40)) + "}\n"),
 ]
+
+
+# identifiers that BEGIN with a word of the DSL, in every position where an identifier is the first token of a declaration:
+# the lexer takes the longest match, so `repeatCount` is one identifier and never `repeat Count`
+KEYWORD_PREFIX_PROGRAM = """MetaData Types {
+    u16 repeatCount `d`,
+    u32 rootCause `d`,
+    char[4] stringCode `d`,
+    zchar[4] zcharLegacy `d`,
+    u8 matchKind `d`,
+    u8 repeatFlag `d`,
+    repeatCount optionsCount `a reference entry`,
+}
+
+root packet Quote {
+    u16 MsgType,
+    repeatCount,
+    rootCause,
+    stringCode,
+    zcharLegacy,
+    optionsCount,
+    repeatPolicy Policy,
+    repeatPolicy,
+    packetHeader,
+    repeatWindow {
+        u8 Open,
+        rootCause,
+        matchInner {
+            u8 trueValue,
+        },
+    },
+    matchKind,
+    match matchKind as Body {
+        1 : packetHeader,
+        2 : optionsBlock,
+    },
+    repeat u8 Flags,
+    repeat repeatPolicy Policies,
+    repeat repeatFlag,
+}
+
+packet repeatPolicy {
+    u8 Mode,
+}
+
+packet packetHeader {
+    u32 Seq,
+}
+
+packet optionsBlock {
+    string Text,
+}
+"""
